@@ -504,6 +504,19 @@ class C17(common.Prop):
         m1, m2, m3 = case["mods"]
         try:
             header = self._header(case)
+            if (B + L + P + len(case["header"])) % 2 == 0 and len(case["header"]) >= 2:
+                # the header OBJECT was used before, with its components in the reverse order (same limbs, same counts): a
+                # representation is built from it, then the component list is reversed in place - the representation under test
+                # must follow the header as it is NOW
+                header.components.reverse()
+                try:
+                    if case["backend"] == "torch":
+                        self.TorchRepr(header, rep_modules1=[], rep_modules2=[self.t_mods[0]()], rep_modules3=[self.t_mods[2]()])
+                    else:
+                        self.TfRepr(header, rep_modules1=[], rep_modules2=[self.f_mods[0]()], rep_modules3=[self.f_mods[2]()])
+                except Exception:
+                    pass
+                header.components.reverse()
             if case["backend"] == "torch":
                 rep = self.TorchRepr(header, rep_modules1=[self.t_points() for _ in m1], rep_modules2=[self.t_mods[k]() for k in m2],
                                      rep_modules3=[self.t_mods[k + 2]() for k in m3])
